@@ -25,6 +25,12 @@ def main():
     mod = importlib.import_module('props.' + prop.lower())
     ctx = vlib.Ctx(prop, a.tier, a.seed)
     ctx.replay = a.replay
+    # lean/Osmium/Generated/*.lean is rewritten from the tree under check and then compiled: a run
+    # against a COPY of the library (VERIF_REPO, used to try seeded changes) must not overlap with
+    # any other run, or one would compile the other's generated files.  Runs against /repo itself
+    # regenerate identical text and may share.
+    tree_lock = vlib.Lock('tree', shared=(os.path.realpath(vlib.REPO) == '/repo'))
+    tree_lock.__enter__()
     try:
         mod.run(ctx)
     except Exception:
